@@ -2634,6 +2634,9 @@ func (_getElem) exec(vm *vm) {
 		return
 	}
 	propName := toPropertyKey(vm.stack[vm.sp-1])
+	// the conversion may have run user code; for a primitive string the object is the Runtime's
+	// shared scratch String object, which that code may have re-pointed at another string
+	obj = v.baseObject(vm.r)
 
 	vm.stack[vm.sp-2] = nilSafe(obj.get(propName, v))
 
@@ -2654,6 +2657,9 @@ func (_getElemRecv) exec(vm *vm) {
 		return
 	}
 	propName := toPropertyKey(vm.stack[vm.sp-2])
+	// the conversion may have run user code; for a primitive string the object is the Runtime's
+	// shared scratch String object, which that code may have re-pointed at another string
+	obj = v.baseObject(vm.r)
 
 	vm.stack[vm.sp-3] = nilSafe(obj.get(propName, recv))
 
@@ -2693,6 +2699,9 @@ func (_getElemCallee) exec(vm *vm) {
 	}
 
 	propName := toPropertyKey(vm.stack[vm.sp-1])
+	// the conversion may have run user code; for a primitive string the object is the Runtime's
+	// shared scratch String object, which that code may have re-pointed at another string
+	obj = v.baseObject(vm.r)
 	prop := obj.get(propName, v)
 	if prop == nil {
 		prop = memberUnresolved{valueUnresolved{r: vm.r, ref: propName.string()}}
@@ -2716,6 +2725,9 @@ func (_getElemRecvCallee) exec(vm *vm) {
 	}
 
 	propName := toPropertyKey(vm.stack[vm.sp-1])
+	// the conversion may have run user code; for a primitive string the object is the Runtime's
+	// shared scratch String object, which that code may have re-pointed at another string
+	obj = v.baseObject(vm.r)
 	prop := obj.get(propName, recv)
 	if prop == nil {
 		prop = memberUnresolved{valueUnresolved{r: vm.r, ref: propName.string()}}
